@@ -456,7 +456,7 @@ def run_C11(ctx):
     core.builds()
     n = ctx.scale(500, 5000)
     cases = corpus("C11") + gen_cases(ctx, n, 5, ctx.scale(60, 250), big_cache=False, p_reject=0.08,
-                                      finals=["F 1", "I", "G", "Z", "K"])
+                                      finals=["F 1", "I", "G", "Z", "W", "K"])
     impl, model = seq_run(ctx, cases)
     bad = 0
     for c, a in zip(cases, impl):
@@ -531,7 +531,7 @@ def run_C02(ctx):
     core.builds()
     n = ctx.scale(400, 4000)
     cases = corpus("C02") + gen_cases(ctx, n, 5, ctx.scale(60, 250), big_cache=True, p_reject=0.05, restarts=4,
-                                      finals=["F 1", "I", "G", "R 0 100000", "D", "K",
+                                      finals=["F 1", "I", "W", "G", "R 0 100000", "D", "K",
                                               "X 100000 1073741824 3 200 1 1", "G", "R 0 100000", "D", "K"])
     impl, model = seq_run(ctx, cases)
     spec_oracle(ctx, cases, impl, "C02 oracle")
